@@ -361,3 +361,5 @@ MUTANTS.append(Mutant("status-before-reconnect", MGR, "                   output
 MUTANTS.append(Mutant("timer-bound-to-first-connection", MGR, "                self._traffic = TrafficTimer(self._signal_reconnect, self._send_ping_reset_timer)",
                       "                self._traffic = TrafficTimer(c.disconnect, self._send_ping_reset_timer)", "C16.R2", "seed C16-12"))
 MUTANTS.append(Mutant("sub-second-interval-defaulted", MGR, "        self._did_dilate()\n", "        self._did_dilate()\n        if ping_interval is not None and ping_interval < 1:\n            ping_interval = None\n", "C16.R6", "seed C16-16"))
+
+MUTANTS.append(Mutant("unowned-abort-watchdog", MGR, "        if self._connection:\n            self._connection.disconnect()\n", "        if self._connection:\n            self._connection.disconnect()\n            self._reactor.callLater(self._ping_interval * 2, self._connection.disconnect)\n", "C16.R7", "seed C16-18"))
